@@ -529,8 +529,17 @@ func (wf *Workflow[I, O]) compile(ctx context.Context, options *graphCompileOpti
 				return nil, fmt.Errorf("node[%s]: %w", n.key, err)
 			}
 
+			// a node without any mapped input (dependencies only): its input consists of the static values alone.
+			// What arrives is the zero value (an empty stream) of the node's input type, not a map of mapped
+			// values to merge the static values into, and no mapping has installed the converter from that map
+			// to the node's input type
+			staticOnly := len(wf.g.fieldMappingRecords[n.key]) == 0
+
 			pair := handlerPair{
 				invoke: func(in any) (any, error) {
+					if staticOnly {
+						return value, nil
+					}
 					values := []any{in, value}
 					return mergeValues(values)
 				},
@@ -538,6 +547,11 @@ func (wf *Workflow[I, O]) compile(ctx context.Context, options *graphCompileOpti
 					sr, sw := schema.Pipe[map[string]any](1)
 					sw.Send(value, nil)
 					sw.Close()
+
+					if staticOnly {
+						in.close()
+						return packStreamReader(sr)
+					}
 
 					newS, err := mergeValues([]any{in, packStreamReader(sr)})
 					if err != nil {
@@ -555,6 +569,13 @@ func (wf *Workflow[I, O]) compile(ctx context.Context, options *graphCompileOpti
 				wf.g.handlerPreNode[n.key] = []handlerPair{pair}
 			} else {
 				wf.g.handlerPreNode[n.key] = append([]handlerPair{pair}, wf.g.handlerPreNode[n.key]...)
+			}
+
+			if staticOnly {
+				// (a passthrough node nothing gives a type has no helper: Compile reports that below)
+				if helper := wf.g.getNodeGenericHelper(n.key); helper != nil {
+					wf.g.handlerPreNode[n.key] = append(wf.g.handlerPreNode[n.key], helper.inputFieldMappingConverter)
+				}
 			}
 
 			// applied once, like n.addInputs: the handler stays in g.handlerPreNode, a later
